@@ -12,6 +12,7 @@ import Proofs.RefactorRemove
 import Proofs.RefactorRemoveOutput
 import Proofs.RefactorGraphIn
 import Proofs.RefactorGraphCall
+import Proofs.RefactorGraphOut
 
 namespace Props.C19
 open Martian.Refactor
@@ -231,5 +232,45 @@ example : RenCallOK "S" "Z" exTi (eraseIds exProg) = true ∧ RenCallOK "S" "U" 
     ∧ (deepGraph exTi (eraseIds exProg)).length = 4
     ∧ (deepGraph exTi (eraseIds exProg)).map (renNodeCallable "S" "Z") ≠ deepGraph exTi (eraseIds exProg) := by
   decide
+
+/-- **rename_output_graph.**  Renaming output `a` of callable `x` to a fresh name
+`b` leaves the resolved call graph unchanged modulo that name: the same nodes;
+in every resolved input, output and retained reference, a reference to output
+`a` (with any projection below it) of a STAGE node of `x` names `b` instead;
+a node of PIPELINE `x` lists its resolved output struct with the key `b` instead
+of `a`; nothing else changes — in particular every consumer of the output, at
+any depth of inlining, still receives the same stage output / literal.
+`RenOutOK` (decidable): `b` is not an output of `x` and is projected from no
+call of `x`; no call of `x` is bound as a whole (`= CALL`) and `x` is not used
+as a parameter type (known finding KF2); no wildcard bindings (KF1); call ids
+distinct; references name existing calls of existing callables. -/
+theorem rename_output_graph (x a b : String) (ti : TypeInfo) (p : Program)
+    (hok : RenOutOK x a b ti p = true) :
+    deepGraph (ti.renameOutput x a b) (renameOutput x a b p)
+      = (deepGraph ti p).map (renNodeOut x a b) := by
+  exact Proofs.RefactorGraph.rename_output_graph x a b ti p hok
+
+/-- non-vacuity: a stage output that is consumed twice and retained (`S.o`), and
+the pipeline output `P.r`; the renaming changes the graph. -/
+example : RenOutOK "S" "o" "z" exTi exProg = true ∧ RenOutOK "P" "r" "z" exTi exProg = true
+    ∧ (deepGraph exTi exProg).map (renNodeOut "S" "o" "z") ≠ deepGraph exTi exProg
+    ∧ (deepGraph exTi exProg).map (renNodeOut "P" "r" "z") ≠ deepGraph exTi exProg := by decide
+
+/-- Negative witness for the whole-call condition (known finding KF2): `T` reads
+the call `S` as a struct (`pt = S`) and a sub-pipeline projects `.o` from it; the
+edit does not rewrite that projection, so after `S.o → z` the consumer's input
+no longer resolves to the stage output. -/
+theorem rename_output_whole_call_breaks :
+    let S : Callable := ⟨false, "S", false, [], [("o", false)], [], [], [], []⟩
+    let T : Callable := ⟨false, "T", false, ["v"], [("w", false)], [], [], [], []⟩
+    let Q : Callable := ⟨true, "Q", false, ["s"], [("r", false)], [],
+      [⟨"T", "T", "", [⟨"v", .ref ⟨.self, "s", ["o"]⟩⟩], []⟩], [⟨"r", .ref ⟨.call, "T", ["w"]⟩⟩], []⟩
+    let P : Callable := ⟨true, "P", false, [], [("r", false)], [],
+      [⟨"S", "S", "", [], []⟩, ⟨"Q", "Q", "", [⟨"s", .ref ⟨.call, "S", []⟩⟩], []⟩],
+      [⟨"r", .ref ⟨.call, "Q", ["r"]⟩⟩], []⟩
+    let prog : Program := ⟨[S, T, Q, P], some ⟨"P", "P", "", [], []⟩⟩
+    RenOutOK "S" "o" "z" TypeInfo.empty prog = false
+    ∧ deepGraph (TypeInfo.empty.renameOutput "S" "o" "z") (renameOutput "S" "o" "z" prog)
+        ≠ (deepGraph TypeInfo.empty prog).map (renNodeOut "S" "o" "z") := by decide
 
 end Props.C19
